@@ -438,7 +438,7 @@ func TestC07Exec(t *testing.T) {
 	}
 	n := ev.Scale(16, 400)
 	for i := 0; i < n; i++ {
-		k := (i*ev.Shards() + ev.Shard())
+		k := (i*ev.Shards() + ev.ShardIndex())
 		listen := []string{"127.0.0.1:0", "[::1]:0", "0.0.0.0:0", "[::]:0"}[k%4]
 		host := "127.0.0.1"
 		if k%4 == 1 || k%4 == 3 {
@@ -522,7 +522,7 @@ func TestC07(t *testing.T) {
 // 127.0.0.1:443 (skipped and counted if that is not possible).
 func TestC07Port443(t *testing.T) {
 	cc := coll("C07")
-	if ev.Replaying() || ev.Shard() != 0 {
+	if ev.Replaying() || ev.ShardIndex() != 0 {
 		t.Skip()
 	}
 	c := C07Case{Listen: "127.0.0.1:443", Reqs: []C07Req{{HTTP10: true, SNI: "sni.example"}, {HTTP10: true, SNI: "other.test", Header: ""}, {Host: "h.example", SNI: "sni.example"}}}
